@@ -355,6 +355,22 @@ func c10Scenarios(c *Ctx) (out []c10Scenario, bounds []int) {
 		}
 	}
 	for _, cf := range [][3]int{{1, 0, 0}, {2, 0, 3}, {2, 1, 0}, {3, 1, 4}} {
+		// 2 threads x 3 operations, preemption bound 2: every first program over six mutators, the
+		// second one starting with every pair and ending with the first program's first operation
+		six := ops[:6]
+		for _, a := range six {
+			for _, b := range six {
+				for _, cc := range six {
+					for _, d := range six {
+						for _, e := range six {
+							add(cf, 2, []string{a, b, cc}, []string{d, e, a})
+						}
+					}
+				}
+			}
+		}
+	}
+	for _, cf := range [][3]int{{1, 0, 0}, {2, 0, 3}, {2, 1, 0}, {3, 1, 4}} {
 		// 3 threads x 2 operations, preemption bound 2
 		small := ops[:5]
 		for _, a := range small {
